@@ -63,6 +63,9 @@ pub enum ROp {
     Read(u32),
     /// poll_fill_buf, then consume min(n, len)
     Fill(u32),
+    /// one buffer of that size filled by REPEATED poll_read calls on the same `ReadBuf` (what `read_exact` and tokio's copy do):
+    /// a call that returns Ready without adding a byte is end-of-stream
+    Exact(u32),
     /// the low-level reader of the public API: when the internal buffer is empty `poll_for_push` (its result must be the number of
     /// bytes now in `buf()`, 0 exactly at end-of-stream), then `buf()` is inspected and min(n, len) bytes are consumed
     LowLevel(u32),
@@ -671,7 +674,7 @@ pub async fn run_reader(cell: StreamCell, stream: usize, end: usize, ops: Vec<RO
     let mut off = 0usize;
     let mut eof = false;
     for op in ops {
-        if eof && matches!(op, ROp::Read(_) | ROp::Fill(_) | ROp::ToEof(_) | ROp::LowLevel(_)) {
+        if eof && matches!(op, ROp::Read(_) | ROp::Fill(_) | ROp::ToEof(_) | ROp::LowLevel(_) | ROp::Exact(_)) {
             // nothing more to read; later Drop/Park/Yield steps of the script still run
             continue;
         }
@@ -745,6 +748,66 @@ pub async fn run_reader(cell: StreamCell, stream: usize, end: usize, ops: Vec<RO
                     }
                     if !to_eof {
                         break;
+                    }
+                }
+            }
+            ROp::Exact(n) => {
+                let mut buf = vec![0u8; (n as usize).max(1)];
+                let mut filled = 0usize;
+                // each wait for more data is a separate poll sequence on the SAME partly filled buffer
+                while filled < buf.len() && !eof {
+                    let mut blocked = false;
+                    let r = poll_fn(|cx| {
+                        let mut g = cell.borrow_mut();
+                        match g.as_mut() {
+                            None => Poll::Ready(None),
+                            Some(s) => {
+                                let mut rb = ReadBuf::new(&mut buf);
+                                rb.set_filled(filled);
+                                match Pin::new(s).poll_read(cx, &mut rb) {
+                                    Poll::Pending => {
+                                        note_pending(cx);
+                                        if !blocked {
+                                            blocked = true;
+                                            log.app(AppEv::ReadBlocked { stream, end });
+                                        }
+                                        Poll::Pending
+                                    }
+                                    Poll::Ready(Ok(())) => Poll::Ready(Some(Ok(rb.filled().len()))),
+                                    Poll::Ready(Err(e)) => Poll::Ready(Some(Err(e))),
+                                }
+                            }
+                        }
+                    })
+                    .await;
+                    match r {
+                        None => return,
+                        Some(Err(e)) => {
+                            log.app(AppEv::ReadErr { stream, end, kind: err_kind(&e) });
+                            return;
+                        }
+                        Some(Ok(now)) if now == filled => {
+                            log.app(AppEv::ReadEof { stream, end });
+                            eof = true;
+                        }
+                        Some(Ok(now)) => {
+                            let k = now - filled;
+                            let mut bad = false;
+                            for (i, b) in buf[filled..now].iter().enumerate() {
+                                let want = pay(stream, dir, off + i);
+                                if *b != want {
+                                    log.app(AppEv::DataMismatch { stream, end, offset: off + i, got: *b, want });
+                                    bad = true;
+                                    break;
+                                }
+                            }
+                            off += k;
+                            filled = now;
+                            log.app(AppEv::ReadOk { stream, end, n: k });
+                            if bad {
+                                return;
+                            }
+                        }
                     }
                 }
             }
